@@ -18,6 +18,7 @@
 package monitor
 
 import (
+	"context"
 	"encoding/json"
 	"fmt"
 	"io"
@@ -65,6 +66,7 @@ type rt struct {
 	inPause atomic.Int32 // the monitor is inside engine.Pause() right now
 	pauses  atomic.Int64 // engine.Pause calls seen
 	nstart  int          // loop goroutine only
+	handled atomic.Int64 // handler executions begun so far
 	spinFn  func()
 }
 
@@ -102,6 +104,7 @@ func (r *rt) Func(ctx hooking.HookCtx) {
 	case timing.HookPosBeforeEvent:
 		r.gate("pre")
 		r.nstart++
+		r.handled.Add(1)
 		r.rec(map[string]any{"e": "start", "id": r.nstart})
 		r.running.Store(1)
 	case timing.HookPosAfterEvent:
@@ -164,6 +167,7 @@ type Core struct {
 	name    string
 	Counter uint64
 	Vals    []uint64
+	Big     []uint64 // a large piece of state: serializing it takes long (overlapping requests)
 	Queue   queueing.Buffer[int]
 	Level   obsBuf
 	s       *sim
@@ -177,6 +181,7 @@ func (c *Core) Handle(e timing.Event) error {
 	now := uint64(e.Time())
 	c.Counter += uint64(ev.K)*7 + 1
 	c.Vals[ev.K%len(c.Vals)] += now
+	c.Big[ev.K%len(c.Big)] += now + uint64(ev.K)
 	c.Queue.PushTyped(ev.K)
 	if s.bar != nil {
 		s.bar.IncrementInProgress(1)
@@ -262,6 +267,8 @@ type sim struct {
 	pendR    int
 	bad      []string
 	engPanic atomic.Value
+	reqMax   time.Duration
+	unsure   map[int]bool
 }
 
 type rsp struct {
@@ -284,12 +291,15 @@ func (s *sim) spinOnce() {
 	}
 }
 
+// bigN is the length of Core.Big (set by the overlap mode before the simulations are built).
+var bigN = 8
+
 func newSim(nwork, gap int, monitored, logging bool) (*sim, error) {
 	s := &sim{nwork: nwork, gap: gap, done: make(chan struct{})}
 	s.r = &rt{logging: logging, parked: make(chan *gateWait, 1)}
 	s.r.spinFn = s.spinOnce
 	s.eng = timing.NewSerialEngine()
-	s.core = &Core{name: "Core", Vals: make([]uint64, 4), s: s}
+	s.core = &Core{name: "Core", Vals: make([]uint64, 4), Big: make([]uint64, bigN), s: s}
 	s.core.Queue = queueing.NewBuffer[int]("Core.Queue", 16)
 	s.core.Level = obsBuf{name: "Core.Level", r: s.r}
 	s.eng.RegisterHandler("Core", s.core)
@@ -437,7 +447,11 @@ func (s *sim) req(ep string, blockT time.Duration) {
 	ch := make(chan rsp, 1)
 	go func() { ch <- s.get(ep) }()
 	// blocked = the monitor sits inside engine.Pause() for blockT (a slow response is waited for)
-	deadline := time.Now().Add(30 * time.Second)
+	maxWait := 30 * time.Second
+	if s.reqMax > 0 {
+		maxWait = s.reqMax // overlap mode: a request queued behind the stalled inspection is left pending
+	}
+	deadline := time.Now().Add(maxWait)
 	var since time.Time
 	for {
 		select {
@@ -567,11 +581,15 @@ type outcome struct {
 	DoneAt   []uint64 `json:"done_at"`
 	Finished uint64   `json:"finished"`
 	InProg   uint64   `json:"in_progress"`
+	BigSum   uint64   `json:"big_sum"`
 }
 
 func (s *sim) outcome() outcome {
 	o := outcome{Order: s.order, Counter: s.core.Counter, Vals: s.core.Vals, Queue: s.core.Queue.Elements(), Level: s.core.Level.n,
 		TkLeft: s.tk.Left, TkDone: s.tk.Done, DoneAt: s.tk.DoneAt}
+	for i, x := range s.core.Big {
+		o.BigSum += x * uint64(i+1)
+	}
 	if s.bar != nil {
 		o.Finished, o.InProg = s.bar.Finished, s.bar.InProgress
 	} else {
@@ -617,6 +635,7 @@ type result struct {
 	Baseline  outcome          `json:"baseline"`
 	Pauses    int64            `json:"engine_pauses"`
 	Race      map[string]any   `json:"race,omitempty"`
+	Overlap   []map[string]any `json:"overlap,omitempty"`
 }
 
 func init() {
@@ -640,6 +659,9 @@ func init() {
 			Event      int    `json:"event"`
 			UserPaused bool   `json:"user_paused"`
 			DelayMs    int    `json:"delay_ms"`
+			// overlap
+			BigN     int         `json:"big_n"`
+			Overlaps []overlapSc `json:"overlaps"`
 		}
 		if err := json.Unmarshal(raw, &in); err != nil {
 			return nil, err
@@ -669,6 +691,9 @@ func init() {
 			}
 			s.r.mu.Lock()
 			for _, m := range s.r.log {
+				if e := m["e"]; (e == "bwin" || e == "bclose") && s.unsure[m["r"].(int)] {
+					continue // the stalled request may have left the inspection already: no claim
+				}
 				_ = enc.Encode(m)
 			}
 			res.Events += len(s.r.log) + 1
@@ -773,6 +798,46 @@ func init() {
 					break
 				}
 			}
+		case "overlap":
+			bigN = in.BigN
+			if bigN < 1000 {
+				bigN = 400000
+			}
+			defer func() { bigN = 8 }()
+			want, err := baseline(in.NWork, in.Gap)
+			if err != nil {
+				return nil, err
+			}
+			res.Baseline = want
+			for i, sc := range in.Overlaps {
+				s, err := newSim(in.NWork, in.Gap, true, true)
+				if err != nil {
+					return nil, err
+				}
+				info, hang := s.overlap(sc)
+				info["scn"] = i
+				res.Overlap = append(res.Overlap, info)
+				if hang == "" {
+					hang = s.finish(false)
+				}
+				res.Requests += s.reqN + 1
+				res.Pauses += s.r.pauses.Load()
+				for _, x := range s.bad {
+					res.Bad = append(res.Bad, fmt.Sprintf("overlap %d: %s", i, x))
+				}
+				eps := append([]string{"field"}, sc.B...)
+				if hang != "" {
+					res.Hangs = append(res.Hangs, map[string]any{"scn": i, "endpoints": eps, "what": hang})
+				} else if got := s.outcome(); !same(got, want) {
+					res.Outcomes = append(res.Outcomes, map[string]any{"scn": i, "endpoints": eps, "got": got, "want": want})
+				}
+				flush(s, i)
+				s.close()
+				res.Scenarios++
+				if len(res.Hangs) >= 3 {
+					break
+				}
+			}
 		case "race":
 			want, err := baseline(in.NWork, in.Gap)
 			if err != nil {
@@ -837,6 +902,165 @@ func init() {
 		}
 		return res, nil
 	})
+}
+
+// ------------------------------------------------------------------ overlapping requests
+
+// overlapSc: request A inspects Core.Big (tens of megabytes of response) and its client
+// stops reading after the first byte, so A's handler stays inside the inspection, blocked
+// on the socket; the requests B are issued meanwhile.
+type overlapSc struct {
+	Event      int      `json:"event"`    // 0: A is issued before Run; else the gate the loop is parked at
+	Position   string   `json:"position"` // pre | mid | post
+	UserPaused bool     `json:"user_paused"`
+	B          []string `json:"b"`
+}
+
+type bigRsp struct {
+	code      int
+	total     int64
+	remaining int64 // bytes that arrived only after the client resumed reading
+	err       error
+}
+
+func tcpWmemMax() int64 {
+	b, err := os.ReadFile("/proc/sys/net/ipv4/tcp_wmem")
+	if err == nil {
+		var a, d, m int64
+		if n, _ := fmt.Sscan(string(b), &a, &d, &m); n == 3 && m > 0 {
+			return m
+		}
+	}
+	return 16 << 20
+}
+
+func (s *sim) overlap(sc overlapSc) (map[string]any, string) {
+	info := map[string]any{"b": sc.B, "event": sc.Event, "position": sc.Position, "user_paused": sc.UserPaused}
+	s.unsure = map[int]bool{}
+	s.r.gating.Store(true)
+	if sc.Event > 0 {
+		nev := 0
+		for steps := 0; steps < 200; steps++ {
+			s.goStep(time.Second)
+			if s.at == nil {
+				break
+			}
+			if s.at.label == "pre" {
+				nev++
+			}
+			if nev == sc.Event && s.at.label == sc.Position {
+				break
+			}
+		}
+		if s.at == nil || s.at.label != sc.Position {
+			return info, fmt.Sprintf("loop did not reach the %s gate of event %d", sc.Position, sc.Event)
+		}
+	}
+	if sc.UserPaused {
+		s.req("pause", 5*time.Millisecond) // at a gate it waits for the handler: left pending
+	}
+	// request A
+	s.reqN++
+	ra := s.reqN
+	first := make(chan struct{})
+	drain := make(chan struct{})
+	done := make(chan bigRsp, 1)
+	s.r.rec(map[string]any{"e": "breq", "r": ra, "ep": "field"})
+	go func() {
+		d := &net.Dialer{}
+		tr := &http.Transport{DisableKeepAlives: true, ReadBufferSize: 4096,
+			DialContext: func(ctx context.Context, network, addr string) (net.Conn, error) {
+				c, err := d.DialContext(ctx, network, addr)
+				if tc, ok := c.(*net.TCPConn); ok {
+					_ = tc.SetReadBuffer(32 << 10) // a small, fixed receive window
+				}
+				return c, err
+			}}
+		defer tr.CloseIdleConnections()
+		cl := &http.Client{Transport: tr, Timeout: 300 * time.Second}
+		res, err := cl.Get(s.base + "/api/field/" + url.PathEscape(`{"comp_name":"Core","field_name":"Big"}`))
+		if err != nil {
+			close(first)
+			done <- bigRsp{err: err}
+			return
+		}
+		defer res.Body.Close()
+		one := make([]byte, 1)
+		n, err := io.ReadFull(res.Body, one)
+		s.r.rec(map[string]any{"e": "bwin", "r": ra})
+		close(first)
+		if err != nil {
+			done <- bigRsp{code: res.StatusCode, total: int64(n), err: err}
+			return
+		}
+		<-drain
+		s.r.rec(map[string]any{"e": "bclose", "r": ra})
+		rest, err := io.Copy(io.Discard, res.Body)
+		done <- bigRsp{code: res.StatusCode, total: rest + 1, remaining: rest, err: err}
+	}()
+	// wait until a pause is requested at the engine (A's own, or the user's with A queued behind
+	// it), then let the simulation run on: that Pause returns when the handler has left
+	p0 := s.r.pauses.Load()
+	if sc.UserPaused {
+		p0 = -1
+	}
+	for t0 := time.Now(); time.Since(t0) < 20*time.Second; time.Sleep(100 * time.Microsecond) {
+		if s.r.inPause.Load() > 0 || s.r.pauses.Load() > p0 {
+			break
+		}
+	}
+	s.r.gating.Store(false)
+	s.noteArrival(0)
+	if s.at != nil {
+		close(s.at.ch)
+		s.at = nil
+	}
+	if !s.started {
+		s.startRun()
+	}
+	select {
+	case <-first:
+	case <-time.After(120 * time.Second):
+		return info, "the large inspection request produced no response byte"
+	}
+	s.pollPending(5 * time.Second) // the user's pause, if any
+	// A is inside its inspection now; the engine must not handle any event until A is drained
+	c0 := s.r.handled.Load()
+	s.reqMax = 150 * time.Millisecond
+	var completed []string
+	for _, ep := range sc.B {
+		if s.pending != nil {
+			break
+		}
+		s.req(ep, 150*time.Millisecond)
+		if s.pending == nil {
+			completed = append(completed, ep)
+		}
+	}
+	s.reqMax = 0
+	time.Sleep(20 * time.Millisecond)
+	c1 := s.r.handled.Load()
+	close(drain)
+	var a bigRsp
+	select {
+	case a = <-done:
+	case <-time.After(300 * time.Second):
+		return info, "the large inspection request never completed"
+	}
+	bound := tcpWmemMax() + (2 << 20)
+	sure := a.err == nil && a.code == 200 && a.remaining > bound
+	if !sure {
+		s.unsure[ra] = true
+	}
+	s.r.rec(map[string]any{"e": "brsp", "r": ra, "code": a.code})
+	if a.err != nil || a.code != 200 {
+		s.bad = append(s.bad, fmt.Sprintf("large field inspection: code=%d err=%v", a.code, a.err))
+	}
+	s.pollPending(30 * time.Second)
+	info["handled_before_b"], info["handled_before_drain"] = c0, c1
+	info["b_completed_in_window"] = completed
+	info["a_bytes"], info["a_bytes_after_window"], info["window_certain"] = a.total, a.remaining, sure
+	return info, ""
 }
 
 var _ = strings.TrimSpace
